@@ -47,5 +47,55 @@ for _n, _file in (("12", "mds_f64_12x12"), ("8", "mds_f64_8x8")):
           "on every unit vector scaled by a symbolic 32-bit factor the result is the corresponding column of the documented circulant MDS matrix (with linearity, which is not proved here, this is the matrix product)",
           bounded="one non-zero coordinate, every position; raw value symbolic 32-bit for 8x8 (thorough tier), 1 and 2^32-1 for 12x12",
           timeout=900, timeout_thorough=1800, tier="quick" if _n == "12" else "thorough"),
+    ] + ([
+        H("mds12_row%d_product_contract" % r, ["C11"], ["mds_f64_12x12::mds_multiply"],
+          "forall states of canonical elements: output row %d == sum_j MDS[%d][j] * state[j] mod M (reference: dot product with the documented circulant row, reduced independently)" % (r, r),
+          timeout=1800, timeout_thorough=3600, tier="thorough", cost=6)
+        for r in (0, 5, 11)] if _n == "12" else []) + [
         H("mds%s_canary_must_fail" % _n, ["C11"], [], "false claim: second output is always 0", canary=True),
     ])
+
+PERM = "Rescue permutation replaced by a mixing double and BaseElement::new by its contract (kani::stub): the clauses are equalities between hash functions that hold for every permutation"
+kani_unit("crypto_rp64", "winter-crypto", "crypto/src/hash/rescue/rp64_256/mod.rs", "kani/crypto_rp64.rs", "hash::rescue::rp64_256", [
+    H("rp64_hash_bytes_len%d_bounded" % L, ["C11"], ["Rp64_256::hash", "Rp64_256::hash_elements"],
+      "hash(bytes) never panics and == hash_elements(encode(bytes)): 7-byte chunks, 0x01 terminator after the last byte, element count in the capacity",
+      bounded="byte strings of length %d (content symbolic)" % L, timeout=900)
+    for L in (0, 1, 7, 8, 56, 57, 63)
+] + [
+    H("rp64_merge_is_hash_of_concatenation_contract", ["C11"], ["Rp64_256::merge", "Rp64_256::hash_elements"],
+      "forall digests a, b: merge([a, b]) == hash_elements(a || b)"),
+    H("rp64_merge_with_int_contract", ["C11"], ["Rp64_256::merge_with_int"],
+      "forall seed, v: u64: merge_with_int(seed, v) == hash_elements(seed || [v]) if v < M else hash_elements(seed || [v mod M, v div M]); the absorbed encoding is injective in v"),
+    H("rp64_canary_must_fail", ["C11"], [], "false claim: all 3-byte strings hash equally", canary=True),
+])
+for u in UNITS:
+    if u["unit"] == "crypto_rp64":
+        u["trusted"] = [PERM]
+
+kani_unit("crypto_rp62", "winter-crypto", "crypto/src/hash/rescue/rp62_248/mod.rs", "kani/crypto_rp62.rs", "hash::rescue::rp62_248", [
+    H("rp62_hash_bytes_len%d_bounded" % L, ["C11"], ["Rp62_248::hash", "Rp62_248::hash_elements"],
+      "hash(bytes) never panics and == hash_elements(encode(bytes)): 7-byte chunks, 0x01 terminator after the last byte, element count in the capacity",
+      bounded="byte strings of length %d (content symbolic)" % L, timeout=900)
+    for L in (0, 1, 7, 8, 56, 57, 63)
+] + [
+    H("rp62_merge_is_hash_of_concatenation_contract", ["C11"], ["Rp62_248::merge", "Rp62_248::hash_elements"],
+      "forall digests a, b: merge([a, b]) == hash_elements(a || b)"),
+    H("rp62_merge_with_int_contract", ["C11"], ["Rp62_248::merge_with_int"],
+      "forall seed, v: u64: merge_with_int(seed, v) == hash_elements(seed || [v]) if v < M else hash_elements(seed || [v mod M, v div M]); the absorbed encoding is injective in v"),
+    H("rp62_canary_must_fail", ["C11"], [], "false claim: all 3-byte strings hash equally", canary=True),
+])
+for u_ in UNITS:
+    if u_["unit"] == "crypto_rp62":
+        u_["trusted"] = [PERM, "f62 elements built from raw words by transmute in the harness (single-field struct)"]
+
+kani_unit("crypto_rpjive", "winter-crypto", "crypto/src/hash/rescue/rp64_256_jive/mod.rs", "kani/crypto_rpjive.rs", "hash::rescue::rp64_256_jive", [
+    H("rpjive_hash_bytes_len%d_bounded" % L, ["C11"], ["RpJive64_256::hash", "RpJive64_256::hash_elements"],
+      "hash(bytes) never panics and == hash_elements(encode(bytes)): 7-byte chunks, 0x01 terminator after the last byte",
+      bounded="byte strings of length %d (content symbolic)" % L, timeout=900)
+    for L in (0, 1, 7, 8, 14, 28, 29, 35)
+] + [
+    H("rpjive_canary_must_fail", ["C11"], [], "false claim: all 3-byte strings hash equally", canary=True),
+])
+for u_ in UNITS:
+    if u_["unit"] == "crypto_rpjive":
+        u_["trusted"] = [PERM]
